@@ -23,10 +23,10 @@ def c_jobs(tier, seed):
     a4 = gen.alphabet(seed, 4)
     out = []
 
-    def add(fam, alpha, shapes, ihmax=IHMAX, nshard=1, name=None, shifts=False):
+    def add(fam, alpha, shapes, ihmax=IHMAX, nshard=1, name=None, shifts=False, alarm=None):
         for i in range(nshard):
             out.append(dict(family=fam, alpha=list(alpha), shapes=shapes, ihmax=ihmax, shifts=shifts, shard=(i, nshard), name=name or fam,
-                            interleave=True, asan=True, timeout=3000))
+                            interleave=True, asan=True, timeout=3000, alarm=alarm))
 
     all88 = drv.all_shapes(64, 1, 8)
     add("misc", a3, all88, name="misc-all-shapes<=8x8")
@@ -42,6 +42,8 @@ def c_jobs(tier, seed):
     # tiny value ranges and huge level counts
     add("product", tuple(v * 1e-10 for v in (0.0, 1.0, 3.0)), drv.all_shapes(6), ihmax=[1, 2, 1000], name="tiny-range")
     add("product", (0.0, 1e30, 3e38), drv.all_shapes(6), ihmax=[1, 2, 1000], name="huge-values")
+    # level counts far above the number of bins and above a million ("ihmax from 1 upward": scratch arrays sized by the level count)
+    add("misc", a3, [(1, 1), (2, 3), (8, 8)], ihmax=[65536, 1048577, 3000000], nshard=16, name="huge-level-counts", alarm=600)
     return out
 
 
@@ -306,6 +308,8 @@ def run_invalid(it):
 
 def replay(case):
     common.load_wavespectra()
+    if case.get("level") == "big":
+        return run_big(dict(shape=case["shape"]))["violations"]
     if case.get("level") == "c":
         if "z" not in case:
             return []
@@ -331,14 +335,58 @@ def replay(case):
         return [Violation(PROP, sig, "%s raised %s: %s" % (case["op"], type(e).__name__, e), case)]
 
 
+def big_case(shape):
+    """Two smooth humps on a grid of more than a million bins (scratch arrays sized by the number of bins)."""
+    nk, nth = shape
+    k = np.arange(nk, dtype=np.float64)[:, None] / max(nk - 1, 1)
+    t = np.arange(nth, dtype=np.float64)[None, :] / max(nth, 1)
+    if nth == 1:
+        z = np.exp(-((k - 0.25) / 0.05) ** 2) + 0.5 * np.exp(-((k - 0.75) / 0.05) ** 2) + 0 * t
+    elif nk == 1:
+        z = np.exp(-((t - 0.25) / 0.05) ** 2) + 0.5 * np.exp(-((t - 0.75) / 0.05) ** 2) + 0 * k
+    else:
+        z = np.exp(-((k - 0.3) / 0.1) ** 2 - ((t - 0.25) / 0.1) ** 2) + 0.5 * np.exp(-((k - 0.7) / 0.1) ** 2 - ((t - 0.75) / 0.1) ** 2)
+    return np.ascontiguousarray(z, dtype=np.float32)
+
+
+def run_big(it):
+    """The native routine through the extension on grids above a million bins: must return labels 1..n covering the grid (a crash of the
+    worker is reported by the pool as a violation naming this item)."""
+    from wavespectra.partition import specpart
+    res = {"evals": 0, "n_nontrivial": 0, "violations": [], "samples": [], "outcomes": {}, "parts": {}}
+    shape = tuple(it["shape"])
+    z = big_case(shape)
+    before = z.copy()
+    for ihmax in (100, 1000):
+        res["evals"] += 1
+        case = dict(level="big", shape=list(shape), ihmax=ihmax)
+        try:
+            lab = np.asarray(specpart.partition(z, ihmax))
+        except Exception as e:  # noqa
+            res["violations"].append(Violation(PROP, "specpart.partition|raises-%s|grid>1e6-bins" % type(e).__name__, "partition raised on a %dx%d grid: %s" % (shape + (e,)), case))
+            continue
+        n = int(lab.max())
+        ok = lab.shape == shape and lab.min() >= 1 and n >= 2 and len(np.unique(lab)) == n
+        if not ok:
+            res["violations"].append(Violation(PROP, "specpart.partition|label-out-of-range|grid>1e6-bins", "labels of a %dx%d two-hump grid: shape %s, min %s, max %s, distinct %d" % (
+                shape + (lab.shape, lab.min(), lab.max(), len(np.unique(lab)))), case))
+        if not np.array_equal(z, before):
+            res["violations"].append(Violation(PROP, "specpart.partition|input-modified|grid>1e6-bins", "input changed by the call on a %dx%d grid" % shape, case))
+        res["n_nontrivial"] += 1
+        k = "big:%dx%d:basins=%d" % (shape + (n,))
+        res["outcomes"][k] = res["outcomes"].get(k, 0) + 1
+    res["parts"]["python-grids>1e6-bins"] = res["evals"]
+    return res
+
+
 def run(rep, tier, seed, parts=None):
     common.load_wavespectra()
     rep.rule = ("native: every grid shape 1x1..8x8 with misc/impulse/impulse-pair families, full products over 3-value alphabets up to "
                 "8/10 cells and 2-value alphabets up to 12/14 cells, 3-bump families, tiny and huge value ranges, x ihmax {1,2,3,10,100,"
-                "1000}, run round-robin over the shapes so the grid shape changes at every call, under clang ASan+UBSan with a 60 s "
+                "1000}, plus level counts 65536, 2**20+1 and 3e6 on 1x1, 2x3 and 8x8, run round-robin over the shapes so the grid shape changes at every call, under clang ASan+UBSan with a 60 s "
                 "watchdog; python: ~70 public operations x degenerate spectra (zero, constant, every single-bin impulse, peak on every "
                 "frequency incl. first/last, monotone, tiny, huge) x grids nf in {1,2,3,4,6,7,9} x nd in {1,2,3,4} (so 0, 1 and 2+ "
-                "frequencies fall in the alpha window) x 3 layouts must not raise; 24 invalid-argument classes must raise ValueError. "
+                "frequencies fall in the alpha window) x 3 layouts must not raise; the extension on two-hump grids of 1100x1000, 1x1.2e6 and 1.2e6x1 bins; 24 invalid-argument classes must raise ValueError. "
                 "Non-trivial: native = (spectrum, ihmax) with >=2 basins; python = one (spectrum, layout) block of operations.")
     rep.assumptions = ["the driver links the repo's specpart.c; specpart_wrap.c is exercised by the python part without sanitizers",
                        "ASan leak detection is off: partinit/ptnghb leak one neighbour table per shape change (outside every property)",
@@ -355,10 +403,14 @@ def run(rep, tier, seed, parts=None):
                 lay = ["none", "time_site"] if (len(f), len(d)) in ((1, 1), (2, 2), (3, 4), (7, 4), (9, 3), (1, 4)) else ["none"]
             items.append(dict(kind="py", f=f, d=d, layouts=lay, full=(tier == "thorough")))
         items.append(dict(kind="invalid"))
+        for shape in ((1100, 1000), (1, 1200000), (1200000, 1)):
+            items.append(dict(kind="big", shape=shape))
 
     def dispatch(it):
         if it["kind"] == "c":
             return run_cjob(it["job"])
+        if it["kind"] == "big":
+            return run_big(it)
         if it["kind"] == "py":
             return run_py(it)
         return run_invalid(it)
